@@ -1019,6 +1019,50 @@ pub fn gen_request_burst(r: &mut Rng, n: usize) -> String {
     })
 }
 
+/// C13 at scale: ONE typed list of some 10 KB over a transport that advertises vectored writes and takes
+/// 100 bytes (gathered across slices) or one slice per call — whatever strategy writes the list, short
+/// writes end inside lines and on line boundaries, and the block must still arrive intact
+pub fn gen_big_list(r: &mut Rng, gather: bool) -> String {
+    let mut sel_seed = r.next() % 1_000_000;
+    while !(wcap_of(sel_seed) == 100 && wvec_of(sel_seed) == if gather { 2 } else { 1 }) {
+        sel_seed += 1;
+    }
+    let rt = runtime(sel_seed);
+    rt.block_on(async {
+        let mut w = World::new(None, sel_seed);
+        let mut sv = SimServer::default();
+        let mut actions: Vec<String> = Vec::new();
+        async fn act(w: &mut World, sv: &mut SimServer, actions: &mut Vec<String>, a: String) {
+            let seg = w.act(&a).await;
+            actions.push(a);
+            for p in seg.split('&') {
+                if let Some(h) = p.strip_prefix("w=") {
+                    sv.feed(&unhex(h));
+                }
+            }
+        }
+        act(&mut w, &mut sv, &mut actions, format!("d{}", hex(b"OK MPD 0.23.5\n"))).await;
+        let names: Vec<String> = (0..300).map(|i| format!("Artist {i}/Album/{:02} - Track.flac", i % 17)).collect();
+        act(&mut w, &mut sv, &mut actions, format!("y1:v:{}", names.iter().map(|n| hex(n.as_bytes())).collect::<Vec<_>>().join("+"))).await;
+        for _ in 0..6 {
+            if !sv.out.is_empty() {
+                let v: Vec<u8> = sv.out.drain(..).collect();
+                act(&mut w, &mut sv, &mut actions, format!("d{}", hex(&v))).await;
+            }
+            act(&mut w, &mut sv, &mut actions, "t100".to_string()).await;
+        }
+        act(&mut w, &mut sv, &mut actions, format!("q2:{}", cmd_spec("x", &["after".to_string()]))).await;
+        for _ in 0..3 {
+            if !sv.out.is_empty() {
+                let v: Vec<u8> = sv.out.drain(..).collect();
+                act(&mut w, &mut sv, &mut actions, format!("d{}", hex(&v))).await;
+            }
+            act(&mut w, &mut sv, &mut actions, "t100".to_string()).await;
+        }
+        format!("loop.C13.{} ~ {}", sel_seed, actions.join(","))
+    })
+}
+
 /// a reply that takes longer than the 100 ms re-idle window in WALL-CLOCK time (`W<ms>` really sleeps:
 /// code that measures with `std::time::Instant` does not see the paused tokio clock), then notifications
 /// and a further request: the client must idle again and carry on
@@ -1482,6 +1526,9 @@ pub fn gen(cfg: &Cfg) -> Vec<String> {
         }
         if cfg.prop == "C01" && i == 0 {
             ops.push(gen_request_burst(&mut r, 140));
+        }
+        if matches!(cfg.prop.as_str(), "C13" | "C07") && i < 2 {
+            ops.push(gen_big_list(&mut r, i == 0));
         }
         if matches!(cfg.prop.as_str(), "C01" | "C05") && i < 2 {
             ops.push(gen_slow_reply(&mut r, &cfg.prop));
